@@ -46,19 +46,41 @@ def _usage_pass(F):
         return False, "stack_validate candidates: %s" % cands
     path = cands[0]
     fn = F.fns[path]
-    blk = idxv = None
-    for n in walk(fn["thir"]["body"]):
-        if n.get("k") == "block":
-            for st in n["stmts"]:
-                if st["k"] == "let" and st.get("init") and (callee_path(strip(st["init"])) or "").endswith("get_insn"):
-                    a = strip(strip(st["init"])["args"][1])
-                    if a.get("k") in ("var", "upvar"):
-                        blk, idxv = n, a
-    if blk is None:
-        return False, "no `let insn = get_insn(prog, idx)` in %s" % path
     ev = symex.Evaluator(F, opaque_calls=lambda q: q.endswith("calculate_stack_usage_for_local_func"))
     owner = ev.owner_of(path)
-    outs = ev.ev(blk, symex.St().set((owner, idxv["id"]), ("v", idxv["name"], 64)), path)
+    st0 = symex.St()
+    prog = None
+    for q in fn["thir"]["params"]:
+        if q["pat"] and q["pat"].get("k") == "bind":
+            v = ev.sym_for(q["pat"]["name"], q["ty"])
+            st0 = st0.set((owner, q["pat"]["id"]), v)
+            if q["ty"].startswith("&[u8]"):
+                prog = v
+    # one iteration of the scan, for a symbolic index I (a `for idx in 0..n`, a `while`, or a range pushed through
+    # map / filter adaptors)
+    info, why = models.counting_loop(F, ev, path, st0)
+    if info is None:
+        return False, "scan loop of %s: %s" % (path, why)
+    n_insns = T.op("udiv", 64, ("call", "len", (prog,), 64), T.K(64, 8)) if prog is not None else None
+    if info["start"] != T.K(64, 0) or info["bound"] != n_insns or not info["step_ok"]:
+        return False, "the scan does not visit the instructions 0..len/8 one by one (start %s, bound %s)" % (_shc(info["start"]), _shc(info["bound"]))
+
+    class _V:       # the variable the canonicaliser treats as the loop counter
+        pass
+    idxv = {"name": "I"}
+    pre = info["pre"]
+    n_eff, n_cond = len(pre.effects), len(pre.conds)
+    pre_maps = {k: v for k, v in pre.env.items() if isinstance(v, tuple) and v and v[0] == "map"}
+    outs = []
+    for s2 in info["states"]:
+        eff = list(s2.effects[n_eff:])
+        # insertions into a table the evaluator holds concretely show up as a changed map, not as an effect
+        for k, v in s2.env.items():
+            if isinstance(v, tuple) and v and v[0] == "map" and k in pre_maps:
+                for kv in v[1]:
+                    if kv not in pre_maps[k][1]:
+                        eff.append(("call", "HashMap::insert", (("map", k), kv[0], kv[1]), None))
+        outs.append((None, s2.fork(effects=tuple(eff), conds=tuple(s2.conds[n_cond:]))))
     cn = lambda t: models.canon(t, idxv["name"])
     target = T.op("add", 64, T.op("add", 64, ("v", "pc", 64), T.K(64, 1)), T.sext(64, ("v", "imm", 32)))
     is_call = T.land(T.cmp("eq", 8, ("v", "src", 8), T.K(8, 1)), T.cmp("eq", 8, ("v", "opc", 8), T.K(8, CALL)))
@@ -293,14 +315,8 @@ def run(rep, tier, parts=("interp", "api", "jit")):
         jl_other = [t for t in jm.templates(CALL, 0, 2)]
         rep.ob(rd, "jit", len(jl) == 1 and all(t["err"] == "Err" for t in jl_other), "JIT: src == 1 emits a native call, src >= 2 is an error",
                expected="1 template / Err", found=(len(jl), [t["err"] for t in jl_other]))
-        sv = [p for p in F.fns if p.endswith("::stack_validate")]
-        okd = False
-        if len(sv) == 1:
-            for n in walk(F.fns[sv[0]]["thir"]["body"]):
-                if n.get("k") == "if":
-                    c = repr(n["c"])
-                    if "'opc'" in c and "ebpf::CALL" in c:
-                        okd = "'src'" in c and "'v': 1" in c
+        # decided semantically by the evaluation of the scan loop (R07.h): entries are added exactly under opc == CALL && src == 1
+        okd = _usage_pass(F)[0]
         rep.ob(rd, "stack-usage", okd, "stack-usage pass classifies local calls", expected="insn.opc == CALL && insn.src == 1", found=okd)
 
     if "jit" in parts:
